@@ -1013,6 +1013,11 @@ int simk_epoll_pwait2(int epfd, struct epoll_event *ev, int max, const struct ti
 		errno = f->err;
 		return -1;
 	}
+	if (ts != NULL && (ts->tv_sec < 0 || ts->tv_nsec < 0 || ts->tv_nsec >= 1000000000L)) {
+		simk_yield();
+		errno = EINVAL;		/* as the kernel does for an invalid time-out */
+		return -1;
+	}
 	return do_wait(PRIM_EPOLL_PWAIT2, epfd, ev, max, NULL, 0,
 		       ts ? ts->tv_sec * 1000000000LL + ts->tv_nsec : -1);
 }
@@ -1030,6 +1035,11 @@ int simk_ppoll(struct pollfd *fds, nfds_t n, const struct timespec *ts, const si
 	if (f != NULL) {
 		simk_yield();
 		errno = f->err;
+		return -1;
+	}
+	if (ts != NULL && (ts->tv_sec < 0 || ts->tv_nsec < 0 || ts->tv_nsec >= 1000000000L)) {
+		simk_yield();
+		errno = EINVAL;
 		return -1;
 	}
 	return do_wait(PRIM_PPOLL, -1, NULL, 0, fds, (int)n,
